@@ -62,6 +62,7 @@ class Server:
         self.nodes = {}          # path -> [data bytes, owner session (0 = not ephemeral)]   (creation order)
         self.watches = {}        # path -> [(client, func)]
         self.oplog = []
+        self.timeline = []       # harness-side history: requests issued, calls observed, completions, expiries
         self.firing = False
 
     def fire_deleted(self, path):
@@ -99,6 +100,7 @@ class Client:
         self.svc = None
         self.retries = []
         self.req = None              # (kind, rid) being processed
+        self.result = None
         self.last = None
         self.go = threading.Semaphore(0)
         self.parked = threading.Semaphore(0)
@@ -133,7 +135,11 @@ class Client:
         if not self.busy and self.thread is not None:
             self.thread.join()
             self.thread = None
+            if self.req is not None:
+                self.server.timeline.append(['done', self.idx, self.sid, self.req[0], self.req[1], self.outcome,
+                                             isinstance(self.result, dict)])
             self.req = None
+            self.result = None
 
     def _yield(self):
         self.parked.release()
@@ -167,7 +173,9 @@ class Client:
             reg = self.svc.presence.get(app, {}).get(path)
         e = {'client': self.idx, 'sid': self.sid, 'op': op, 'path': path, 'ok': ok, 'data': data,
              'owner_before': node[1] if node else None, 'ephemeral': ephemeral,
+             'node_data': node[0].decode() if node else None,
              'req': list(self.req) if self.req else None, 'reg': reg, 'retry': False}
+        self.server.timeline.append(['call', len(self.server.oplog)])
         self.server.oplog.append(e)
         self.last = e
         return e
@@ -336,7 +344,7 @@ def drive(case):
     active = [dict() for _ in range(ncl)]       # rid -> rsrc_data of create requests not yet deleted
     seen = [list() for _ in range(ncl)]         # every rid ever requested on the client
 
-    def new_data():
+    def new_data(app):
         eps = []
         for name, port in (('http', 8000), ('ssh', 22)):
             if rng.random() < 0.6:
@@ -345,14 +353,14 @@ def drive(case):
         d = {'endpoints': eps}
         if case['identity'] and rng.random() < 0.6:
             d['identity_group'] = 'proid.ig'
-            d['identity'] = rng.randint(0, 1)
+            d['identity'] = rng.randint(0, 1) + 2 * w.apps.index(app)     # an identity is held by one instance
         return d
     # initial (possibly stale) state: nodes owned by some session and entries in the services' local maps
     init = {'nodes': [], 'pmaps': [[] for _ in range(ncl)]}
     if case['stale']:
         for app in w.apps:
             full = {'endpoints': [{'name': 'http', 'port': 8000, 'proto': 'tcp', 'real_port': 5000}],
-                    'identity_group': 'proid.ig', 'identity': 0}
+                    'identity_group': 'proid.ig', 'identity': 2 * w.apps.index(app)}
             for idx in range(ncl):
                 for path, payload in w.items(HOSTS[idx], app, full):
                     r = rng.random()
@@ -375,11 +383,17 @@ def drive(case):
         c = clients[idx]
         c.req = (kind, rid)
         svc = c.svc
+        app = im['appcfg'].app_name(rid)
+        items = [[p_, d_.decode()] for p_, d_ in w.items(HOSTS[idx], app, data)] if kind == 'create' else []
+        srv.timeline.append(['req', idx, c.sid, kind, rid, app, items])
+
+        def _create():
+            c.result = svc.on_create_request(rid, data)
         if kind == 'create':
             active[idx][rid] = data
             if rid not in seen[idx]:
                 seen[idx].append(rid)
-            c.begin(lambda: svc.on_create_request(rid, data))
+            c.begin(_create)
         else:
             active[idx].pop(rid, None)
             c.begin(lambda: svc.on_delete_request(rid))
@@ -396,6 +410,7 @@ def drive(case):
         if rng.random() < case['p_expire']:
             c.kill()
             srv.expire(c.sid)
+            srv.timeline.append(['expire', idx, c.sid])
             actions.append(['expire', idx])
             continue
         if c.busy:
@@ -410,7 +425,7 @@ def drive(case):
         elif r < 0.55 or not seen[idx]:
             counter[0] += 1
             app = rng.choice(w.apps)
-            do_req(idx, 'create', _rid(app, counter[0]), new_data())
+            do_req(idx, 'create', _rid(app, counter[0]), new_data(app))
         elif r < 0.65 and active[idx]:
             rid = rng.choice(sorted(active[idx]))
             do_req(idx, 'create', rid, active[idx][rid])           # spurious re-evaluation
@@ -437,7 +452,8 @@ def impl_run(case):
     for e in srv.oplog:
         if isinstance(e['data'], bytes):
             e['data'] = e['data'].decode()
-    return {'actions': actions, 'oplog': srv.oplog, 'nodes': nodes, 'clients': cl, 'init': init}
+    return {'actions': actions, 'oplog': srv.oplog, 'nodes': nodes, 'clients': cl, 'init': init,
+            'timeline': srv.timeline}
 
 
 # ------------------------------------------------------------------ canoniser + Gallina terms
@@ -543,7 +559,68 @@ def oracle(case, obs):
                 bad('delete-unregistered-path', '%s: the path is registered for %s' % (where, e['reg']))
         if e['op'] == 'set' and (not e['req'] or e['req'][0] != 'create'):
             bad('set-outside-create-request', where)
+    for sig, what in ghost_check(obs):
+        bad(sig, what)
     return out or None
+
+
+def ghost_check(obs):
+    """Registration tracking that does NOT read the service's own presence map.
+
+    From the requests the harness issues (rid, expected (path, payload) items) and the ZooKeeper calls it observes
+    while each request is served, track per path which container's create request most recently (re)registered
+    it: a successful create, a successful set, or a get that finds the node owned by the caller's session with
+    exactly the payload of the request (the adoption branch of _safe_create).  A delete performed while serving
+    on_delete_request(rid) must not hit a path whose latest registration belongs to another container; and at the
+    end every path of a live, fully registered container (last registrant of the path) must exist, owned by it."""
+    out = []
+    oplog = obs['oplog']
+    latest = {}        # path -> (sid, rid): current node at path was last (re)registered by rid
+    lastreg = {}       # (sid, path) -> rid of the last registration on that session
+    cur = {}           # client index -> request being served
+    live = {}          # (sid, app) -> (rid, items): most recently COMPLETED create, nothing started for the app since
+    for ev in obs['timeline']:
+        if ev[0] == 'req':
+            _t, idx, sid, kind, rid, app, items = ev
+            cur[idx] = {'sid': sid, 'kind': kind, 'rid': rid, 'app': app, 'items': {p: d for p, d in items}}
+            if kind == 'create' or live.get((sid, app), (None,))[0] == rid:
+                live.pop((sid, app), None)
+        elif ev[0] == 'call':
+            e = oplog[ev[1]]
+            r = cur.get(e['client'])
+            path = e['path']
+            if e['op'] == 'delete' and e['ok']:
+                reg = latest.pop(path, None)
+                if r and r['kind'] == 'delete' and reg and reg[1] != r['rid']:
+                    out.append(('cleanup-of-old-container-deletes-newer-registration',
+                                'call %d: client %d (session %s) serving on_delete_request(%s) deletes %s, whose latest '
+                                'registration was made by the create request of %s (session %s)'
+                                % (ev[1], e['client'], e['sid'], r['rid'], path, reg[1], reg[0])))
+            elif r and r['kind'] == 'create' and e['ok'] and path in r['items']:
+                adopted = (e['op'] == 'get' and e['owner_before'] == e['sid'] and e['node_data'] == r['items'][path])
+                if e['op'] in ('create', 'set') or adopted:
+                    latest[path] = (e['sid'], r['rid'])
+                    lastreg[(e['sid'], path)] = r['rid']
+        elif ev[0] == 'done':
+            _t, idx, sid, kind, rid, outcome, is_dict = ev
+            r = cur.pop(idx, None)
+            if r and kind == 'create' and outcome == 'done' and is_dict:
+                live[(sid, r['app'])] = (rid, r['items'])
+        elif ev[0] == 'expire':
+            _t, idx, sid = ev
+            cur.pop(idx, None)
+            for p in [p for p, v in latest.items() if v[0] == sid]:
+                del latest[p]
+            for k in [k for k in live if k[0] == sid]:
+                del live[k]
+    nodes = {p: o for p, _d, o in obs['nodes']}
+    for (sid, _app), (rid, items) in sorted(live.items()):
+        for p in items:
+            if lastreg.get((sid, p)) == rid and nodes.get(p) != sid:
+                out.append(('registered-path-missing-for-live-container',
+                            'at the end %s (registered by the completed create request of %s, session %s, never deleted '
+                            'or superseded) %s' % (p, rid, sid, 'is owned by %s' % nodes[p] if p in nodes else 'does not exist')))
+    return out
 
 
 def nontrivial(case, obs):
